@@ -116,6 +116,16 @@ impl Segment {
             self.log_path, self.index_path
         );
 
+        super::recovery::reconcile_log_and_index(
+            &self.log_path,
+            &self.index_path,
+            self.start_offset,
+        )
+        .with_error_context(|error| {
+            format!("Failed to reconcile the log and the index of {self}. {error}")
+        })
+        .map_err(|_| IggyError::CannotReadFile)?;
+
         if self.log_reader.is_none() || self.index_reader.is_none() {
             self.initialize_writing().await?;
             self.initialize_reading().await?;
